@@ -233,7 +233,9 @@ Definition typed_view (f : file) : list dview := flat_map ent_view (entries f).
    says where the line sits, block headers have one token *)
 Definition line_placed (s : syntax) (x : lid * option str) : Prop :=
   (fst x < length (heap s))%nat /\
-  hl_inb (sget s (fst x)) = match snd x with None => false | Some _ => true end.
+  hl_inb (sget s (fst x)) = match snd x with None => false | Some _ => true end /\
+  (* a top-level line is removed (no token) or has a verb and at least one argument *)
+  match snd x with None => length (hl_tok (sget s (fst x))) <> 1%nat | Some _ => True end.
 
 (* a block header is one token; a LineBlock never carries end-of-line comments of its own
    (the parser attaches a comment after ")" to the RParen, new blocks have none) *)
@@ -280,7 +282,8 @@ Definition dview_eqb (a b : dview) : bool :=
 Definition syntax_okb (s : syntax) : bool :=
   nodupb (map fst (tree_lines s))
   && forallb (fun x => (fst x <? length (heap s))%nat
-                       && Bool.eqb (hl_inb (sget s (fst x))) (match snd x with None => false | Some _ => true end))
+                       && Bool.eqb (hl_inb (sget s (fst x))) (match snd x with None => false | Some _ => true end)
+                       && match snd x with None => negb (Nat.eqb (length (hl_tok (sget s (fst x)))) 1) | Some _ => true end)
              (tree_lines s)
   && forallb (fun st => match st with SBlock b => Nat.eqb (length (hb_tok b)) 1 && nilb (c_suffix (hb_com b)) | _ => true end) (stmts s).
 
